@@ -20,6 +20,15 @@ INT_CTX = (1, 2, 6)
 def group_runs(ctx, group):
     return group != "int" or ctx in INT_CTX
 
+
+def plan(tier, groups=None):
+    """(context, group) pairs of a tier; quick runs the int32 group with x86_SSE as well so that it also sees two contexts"""
+    ctxs = QUICK_CTX if tier == "quick" else ALL_CTX
+    out = [(c, g) for c in ctxs for g in (groups or GROUPS) if group_runs(c, g)]
+    if tier == "quick" and (not groups or "int" in groups):
+        out.append((1, "int"))
+    return out
+
 NPT = {4: np.float32, 8: np.float64, 32: np.int32}
 TAG = {4: "f4", 8: "f8", 32: "i4"}
 
